@@ -13,6 +13,7 @@ let () =
    | "flowcheck" -> Flowcheck.run st b
    | "opsmodel" -> Opsmodel.run st b
    | "neighmodel" -> Neighmodel.run st b
+   | "pipemodel" -> Pipemodel.run st b
    | _ -> prerr_endline ("unknown command " ^ cmd); exit 2);
   let oc = open_out Sys.argv.(3) in
   Buffer.output_buffer oc b; close_out oc
